@@ -274,6 +274,43 @@ func c09Run(c *core.Ctx) *core.Result {
 		}
 	}
 
+	// 3d. file systems whose lstat does not report the length of a link
+	// target (procfs and sysfs report 0): the link name must still be what
+	// readlink returns, whatever size the walk was told
+	if core.NewRand(core.Mix(c.Seed, "C09-procfs", c.Index)).P(1, 20) {
+		for _, dir := range []string{"/proc/self/ns", "/sys/class/net", "/proc/self"} {
+			checked := 0
+			err := fsutil.Walk(context.Background(), dir, nil, func(p string, fi os.FileInfo, err error) error {
+				if err != nil {
+					if fi != nil && fi.IsDir() {
+						return filepath.SkipDir
+					}
+					return nil
+				}
+				if fi.IsDir() && p != "" {
+					return filepath.SkipDir // top level only
+				}
+				if fi.Mode()&os.ModeSymlink == 0 {
+					return nil
+				}
+				buf := make([]byte, 8192)
+				n, rerr := unix.Readlink(filepath.Join(dir, p), buf)
+				if rerr != nil {
+					return nil // gone meanwhile (these trees live)
+				}
+				st := fi.Sys().(*types.Stat)
+				again, _ := unix.Readlink(filepath.Join(dir, p), buf[4096:])
+				if st.Linkname != string(buf[:n]) && again == n && string(buf[4096:4096+again]) == string(buf[:n]) {
+					r.Violate("walk-stat", "Walk(%q): %q is reported with link name %q, readlink gives %q (lstat reports size %d for it)", dir, p, st.Linkname, buf[:n], st.Size)
+				}
+				checked++
+				return nil
+			})
+			_ = err
+			r.Count("symlinks_compared_on_procfs_sysfs", int64(checked))
+		}
+	}
+
 	// 3b. the single-entry stat constructor
 	for k := 0; k < 3 && len(snap.Entries) > 0; k++ {
 		e := core.Pick(c.R, snap.Entries)
